@@ -6,6 +6,7 @@ import vlib
 CFG_TMPL = """SPECIFICATION TSpec
 CONSTANTS
  SysLevels <- mc_SysLevels
+ Deviations <- EnvDeviations
 CONSTRAINT HWM
 POSTCONDITION Accepted
 CHECK_DEADLOCK FALSE
@@ -40,14 +41,14 @@ def run_wire(ctx, scenarios, name, par=16, slow=False, timeout=1200):
     return tp, index, stats
 
 
-def tlc_validate(ctx, trace_path, module="TraceBroker", invariants=("IdsDistinct", "SubsKeyed"), stopat=0, timeout=900):
+def tlc_validate(ctx, trace_path, module="TraceBroker", invariants=("IdsDistinct", "SubsKeyed"), stopat=0, timeout=900, deviation=""):
     """returns (accepted, hwm, tlc_result)"""
     body = "mc_SysLevels == %s\n" % vlib.tla_set([vlib.tla_str(s) for s in SYS_LEVELS])
     inv = list(invariants)
     if stopat:
         inv.append("NotAtStop")
     cfg = CFG_TMPL % "\n".join(" " + i for i in inv)
-    env = {"TRACE": trace_path}
+    env = {"TRACE": trace_path, "KF": deviation}
     if stopat:
         env["STOPAT"] = str(stopat)
     hw = {"v": None}
@@ -174,3 +175,60 @@ def single(ctx, scenario, name, module="TraceBroker", invariants=("IdsDistinct",
         info["state"] = state_at(ctx, tp, hwm, module=module)
         info["tp"] = tp
     return acc, info
+
+
+def sig_of(ev):
+    try:
+        return json.loads(ev).get("e", "?")
+    except Exception:
+        return "?"
+
+
+def confirm(ctx, rejected, inv, module="TraceBroker", limit=4):
+    """Decide what the rejected scenarios mean.  Each is re-executed alone (slow mode when the rejection is
+    absence-type: something owed had not arrived at a barrier); a trace that is still rejected is re-validated with
+    exactly one deviation of the open known findings of this property switched on: accepted => KNOWN-FINDING,
+    otherwise VIOLATION.  At most `limit` scenarios are re-executed, presence-type rejections beyond that are reported
+    as recorded."""
+    ctx.cov["rejected_scenarios"] = len(rejected)
+    devs = [k for k in ctx.kf if k.get("status") == "open" and k.get("property") == ctx.pid and k.get("deviation")]
+    for n, r in enumerate(rejected):
+        sc = r["scenario"]
+        ev = r.get("event") or ""
+        absence = '"e":"quiet"' in ev
+        if n < limit:
+            acc, info = single(ctx, sc, ("slow_" if absence else "re_") + sc["id"], module=module, invariants=inv, slow=absence)
+            if acc:
+                if absence:
+                    ctx.cov["timing_unconfirmed"] = ctx.cov.get("timing_unconfirmed", 0) + 1
+                    continue
+                # presence-type: the recorded trace is itself a violating execution (DESIGN.md 2.6); keep r as recorded
+                tp = None
+            else:
+                r = {"scenario": sc, "trace": info["trace"], "line": info["line"], "event": info.get("event"), "why": info.get("why"),
+                     "state": info.get("state")}
+                tp = info.get("tp")
+        else:
+            if absence:
+                continue
+            tp = None
+        if tp is None:
+            tp = os.path.join(ctx.tmp("kf"), "t%d.ndjson" % n)
+            with open(tp, "w") as fh:
+                fh.write("\n".join(r["trace"]) + "\n")
+        explained = None
+        for k in devs:
+            acc, _, _ = tlc_validate(ctx, tp, module=module, invariants=inv, deviation=k["deviation"])
+            if acc:
+                explained = k
+                break
+        if explained:
+            ctx.known_finding(explained["what"])
+            ctx.cov.setdefault("known_finding_hits", {}).setdefault(explained["deviation"], 0)
+            ctx.cov["known_finding_hits"][explained["deviation"]] += 1
+            continue
+        what = "trace of scenario %s rejected at line %s: %s -- %s" % (sc["id"], r["line"], (r.get("event") or "")[:300], r.get("why"))
+        ctx.violation(what, {"signature": "trace:" + sig_of(r.get("event")), "kind": "wire-trace", "scenario": sc, "line": r["line"],
+                             "event": r.get("event"), "why": r.get("why"), "state": r.get("state"), "trace": r["trace"]})
+    if ctx.cov.get("timing_unconfirmed", 0) > 5:
+        raise vlib.MachineryError("too many timing-dependent rejections (%d): machinery not trustworthy on this machine" % ctx.cov["timing_unconfirmed"])
